@@ -546,6 +546,8 @@ func TestCheck(t *testing.T) {
 		{Name: "cache-fs-fault", Bound: 1, Wrap: report.Bubble(t), Body: func(r *explore.Run) { cacheFaultBody(r, rep, "cache-fs-fault") }},
 		{Name: "build-roundtrip", Bound: 0, Wrap: report.Bubble(t), Body: func(r *explore.Run) { buildBody(r, rep, "build-roundtrip") }},
 		{Name: "shared-backend/2", Bound: 3, Wrap: report.Bubble(t), Body: func(r *explore.Run) { sharedBackendBody(r, rep, "shared-backend/2", 2) }},
+		{Name: "shared-cache/2", Bound: 3, Wrap: report.Bubble(t), Body: func(r *explore.Run) { sharedCacheBody(r, rep, "shared-cache/2", 2) }},
+		{Name: "shared-cache/3", Bound: 2, Wrap: report.Bubble(t), Body: func(r *explore.Run) { sharedCacheBody(r, rep, "shared-cache/3", 3) }},
 		{Name: "shared-backend/3", Bound: 2, Wrap: report.Bubble(t), Body: func(r *explore.Run) { sharedBackendBody(r, rep, "shared-backend/3", 3) }},
 		// (Real files and a changed working directory: not in a bubble.)
 		{Name: "build-cli-roundtrip", Bound: 0, Body: func(r *explore.Run) { buildCLIBody(r, rep, "build-cli-roundtrip") }},
